@@ -2,6 +2,6 @@
 # tools/try_seed.sh <patch.diff> <check-id> [tier]   : apply a seeded change to /repo, run the check, undo
 P="$1"; ID="$2"; TIER="${3:-quick}"
 git -C /repo diff --quiet || { echo "/repo is dirty"; exit 9; }
-git -C /repo apply "$P" || { echo "patch does not apply"; exit 9; }
+git -C /repo apply "$P" 2>/dev/null || git -C /repo apply --include="nmea2000/*" "$P" || { echo "patch does not apply"; exit 9; }
 cd /verif && timeout ${TMO:-900} ./check "$ID" --tier "$TIER" 2>&1 | grep -v conda | tail -${TAIL:-8}
 git -C /repo checkout -- . 
